@@ -37,7 +37,7 @@ type Case struct {
 type FaultSpec struct {
 	Class  string `json:"class"` // blob-get | manifest-get | blob-head | manifest-head
 	Nth    int    `json:"nth"`
-	Kind   string `json:"kind"` // status | truncate | reset-before
+	Kind   string `json:"kind"` // status | truncate | reset-before | wrong-bytes (the source serves other bytes for the Nth blob of the closure: digest mismatch while the blob is being written) | cancel (the copy's context is cancelled on arrival of its Nth blob request: the body breaks off mid-stream)
 	Status int    `json:"status,omitempty"`
 	At     int    `json:"at,omitempty"`
 	Times  int    `json:"times"` // 1 = transient (the retry succeeds), -1 = persistent
@@ -48,7 +48,8 @@ type Op struct {
 	Kind string `json:"kind"` // copy | import | push | manifest | blob | blobdel | tagdel | mandel | tmp | close | reopen
 	Node int    `json:"node"`
 	Blob int    `json:"blob,omitempty"`
-	Tag  int    `json:"tag"` // -1 = by digest, 0..2 = t0..t2, 3 = v1, 4 = no tag in the reference (the default tag "latest")
+	Bad  int    `json:"bad,omitempty"` // blob: 0 a good push; a push that fails part-way for real: 1 other bytes than the declared digest, 2 the reader fails mid-stream, 3 the context is cancelled mid-body, 4 wrong declared size
+	Tag  int    `json:"tag"`           // -1 = by digest, 0..2 = t0..t2, 3 = v1, 4 = no tag in the reference (the default tag "latest")
 	// copy
 	From       string     `json:"from,omitempty"` // reg | layout | self (re-tag inside the target layout)
 	SrcByTag   bool       `json:"src_by_tag,omitempty"`
@@ -348,7 +349,7 @@ func genFault(t *rapid.T, label string) *FaultSpec {
 	f := &FaultSpec{
 		Class: rapid.SampledFrom([]string{"blob-get", "blob-get", "blob-get", "manifest-get", "manifest-get", "manifest-head"}).Draw(t, label+"_class"),
 		Nth:   rapid.SampledFrom([]int{0, 0, 1, 1, 2, 3, 5}).Draw(t, label+"_nth"),
-		Kind:  rapid.SampledFrom([]string{"status", "status", "status", "truncate", "reset-before"}).Draw(t, label+"_kind"),
+		Kind:  rapid.SampledFrom([]string{"status", "status", "status", "truncate", "reset-before", "wrong-bytes", "wrong-bytes", "cancel"}).Draw(t, label+"_kind"),
 		Times: rapid.SampledFrom([]int{-1, -1, -1, 1}).Draw(t, label+"_times"),
 	}
 	switch f.Kind {
@@ -399,6 +400,7 @@ func genOp(t *rapid.T, nNodes, nBlobs int, system string) Op {
 		if nBlobs > 0 {
 			op.Blob = rapid.IntRange(0, nBlobs-1).Draw(t, "blob")
 		}
+		op.Bad = rapid.SampledFrom([]int{0, 0, 0, 0, 1, 2, 3, 4}).Draw(t, "bad")
 	case "tagdel":
 		op.TagKind = rapid.SampledFrom([]int{0, 0, 0, 1}).Draw(t, "tagkind")
 		if op.Tag < 0 {
